@@ -527,21 +527,18 @@ class TimeParameterType(ParameterType, metaclass=ABCMeta):
         -------
         : ElementTree.Element
         """
-        if not isinstance(self.encoding, encodings.NumericDataEncoding):
-            raise ValueError("Only NumericDataEncodings are supported for TimeParameterTypes.")
-
         element = getattr(elmaker, self.__class__.__name__)(name=self.name)
 
         encoding_attrib = {}
         if self.unit is not None:
             encoding_attrib["units"] = self.unit
 
-        default_calibrator = self.encoding.default_calibrator
+        default_calibrator = getattr(self.encoding, 'default_calibrator', None)
         # scale and offset stand for a linear calibrator, which is what loading turns them back into (and what
         # then replaces the data encoding's own default calibrator); any other calibrator is written by the
         # data encoding alone
         if (isinstance(default_calibrator, calibrators.PolynomialCalibrator)
-                and sorted(c.exponent for c in default_calibrator.coefficients) in ([1], [0, 1])):
+                and [c.exponent for c in default_calibrator.coefficients] in ([1], [0, 1])):
             coefficients = default_calibrator.coefficients
             scale = [c.coefficient for c in coefficients if c.exponent == 1]
             offset = [c.coefficient for c in coefficients if c.exponent == 0]
